@@ -166,6 +166,7 @@ def run(ctx, model_ok=True, proofs_broken=False):
         lines.append("fn parse_uri " + hx(s))
         if rng.random() < 0.3:
             lines.append("fn hostport " + hx(s))
+    lines += lib.load_fuzz_lines(("fn parse_uri ", "fn hostport ", "fn validate_hostname ", "fn inet6 ", "fn norm_uri "))
     corpus = lib.load_corpus("C13")
     scripts = corpus + [[l] for l in lines]
     if model_ok:
